@@ -111,7 +111,14 @@ def prepare_inputs(task, variant, d, scratch):
 def _make_inputs(task, variant, d, scratch, create=True):
     from dclab import cli
     gen.register_user_features()
-    n = {0: 5, 1: 12, 2: 7}[variant]
+    n = {0: 5, 1: 12, 2: 7, 3: 5}[variant]
+
+    def noisy(path):
+        # variant 3: loading the input issues a warning (unknown metadata
+        # key), so the tasks take their "record the warnings" branch
+        if variant == 3:
+            with h5py.File(path, "a") as h5:
+                h5.attrs["setup:vf unknown key"] = "x"
     feats = None if variant != 2 else ["deform", "area_um", "time", "frame",
                                        "image", "mask", "index_online"]
     logs = {"vf-log": ["line 1", "line 2 µ"]}
@@ -124,6 +131,7 @@ def _make_inputs(task, variant, d, scratch, create=True):
             with gen.chunk_bytes(100 if variant == 1 else 1024 ** 2):
                 gen.write_rtdc(src, ev, logs=logs, tables=tabs,
                                parts=[n] if variant != 1 else [5, 7])
+            noisy(src)
         if task == "split":
             outs = [d / f"in_{i + 1:04d}.rtdc"
                     for i in range((n + 3) // 4)]
@@ -142,6 +150,7 @@ def _make_inputs(task, variant, d, scratch, create=True):
                 gen.write_rtdc(p, ev, meta=gen.complete_meta(
                     4 + j, time=f"12:0{j}:00", run_index=j + 1),
                     logs=logs if j == 0 else None)
+                noisy(p)
             ins.append(p)
         out = d / "out.rtdc"
         return ins, [out], lambda: cli.join(paths_in=ins, path_out=out)
@@ -257,8 +266,9 @@ def _fault_case(args):
 
 def run(ctx):
     scratch = ctx.scratch
-    variants = (0,) if ctx.quick else (0, 1, 2)
-    gitems = [(t, v, False, scratch) for t in TASKS for v in variants]
+    variants = (0, 3) if ctx.quick else (0, 1, 2, 3)
+    gitems = [(t, v, False, scratch) for t in TASKS for v in variants
+              if not (t == "tdms2rtdc" and v == 3)]
     goldens = par.pmap(_golden, gitems)
     items = []
     info = {}
